@@ -354,9 +354,10 @@ def r4_signature(ck, prog, run):
             if o is None:
                 continue
             bad = meta_same(z, o, skip=("_meta",))
-            m_ok = isinstance(o.attrs.get("_meta"), DictV) and o.attrs["_meta"].d.keys() == z.attrs["_meta"].d.keys() and o.attrs["_meta"] is not z.attrs["_meta"]
+            # (the statement asks for every attribute to be reproduced unchanged; whether meta is the same dict or an equal one is not part of it)
+            m_ok = isinstance(o.attrs.get("_meta"), DictV) and o.attrs["_meta"].d.keys() == z.attrs["_meta"].d.keys()
             d_ok = isinstance(o.attrs["_data"], Num) and o.attrs["_data"].expr == z.attrs["_data"].expr
-            ck.same("R4", like.where, f"{clsname}.like(z) [{backend}]", "reproduces class, data and every metadata attribute (meta as an equal, separate dict)",
+            ck.same("R4", like.where, f"{clsname}.like(z) [{backend}]", "reproduces class, data and every metadata attribute",
                     o.cls is z.cls and not bad and m_ok and d_ok, found="; ".join(bad) or obj_summary(o), nontrivial=True)
             if backend == "dask" and clsname in ("Signal", "DualPolarizationSignal"):
                 for hname in ("compute", "persist", "to_dask_array", "rechunk"):
